@@ -500,6 +500,12 @@ def c19(scn):
                 fails.append(("labels_count_eq_outlets", ""))
             if pits != [o for o in outlets if o not in base]:
                 fails.append(("pits_are_nonbase_outlets", "%s" % pits))
+        if call.cmd == "pits" and "pits" in call.O and "outlets" in call.O:
+            base_now = set(int(x) for x in call.i("seeds"))
+            outlets = [int(x) for x in call.O["outlets"]]
+            pits = [int(x) for x in call.O["pits"]]
+            if pits != [o for o in outlets if o not in base_now]:
+                fails.append(("pits_are_nonbase_outlets", "after set_base_levels %s: outlets %s, pits %s" % (sorted(base_now), outlets, pits)))
     return fails
 
 
